@@ -561,6 +561,14 @@ def _count_form(I, idx, key_tab, n_layers):
         if len(pos) >= 2 and tail_slice(pos[0], False) and side in ("left", "right") and "sorter" not in kws:
             return ("<=" if side == "right" else "<", unbroadcast(pos[1]))
         return None
+    if is_ext_call(n, "numpy.digitize"):
+        # digitize(x, bins, right) on increasing bins is searchsorted(bins, x, 'left' if right else 'right')
+        pos, kws = call_args(n)
+        right = kws.get("right") or (pos[2] if len(pos) > 2 else None)
+        right = False if right is None else (right.attr if right.op == "Const" and isinstance(right.attr, bool) else None)
+        if len(pos) >= 2 and tail_slice(pos[1], False) and right is not None:
+            return ("<" if right else "<=", unbroadcast(pos[0]))
+        return None
     # zeros + (T[1] op x) + (T[2] op x) + ... : one comparison per layer base, added up
     terms, stack = [], [n]
     while stack:
